@@ -48,6 +48,8 @@ type Program struct {
 type intrinsic func(ex *exec, fr *frame, fn *ssa.Function, args []value) value
 
 // intrinsicFn is a callable value implemented by the executor.
+var debugStack = os.Getenv("GOSYM_STACK") != ""
+
 type intrinsicFn struct {
 	name string
 	fn   func(ex *exec, fr *frame, args []value) value
@@ -188,6 +190,23 @@ func (ex *exec) lookupMethod(typ types.Type, meth *types.Func) value {
 		name := ft.name + "." + meth.Name()
 		if in, ok := ex.intrinsics[name]; ok {
 			return &intrinsicFn{name: name, fn: func(ex *exec, fr *frame, args []value) value { return in(ex, fr, nil, args) }}
+		}
+		if ft.name == "prometheus.metric" {
+			sig := meth.Type().(*types.Signature)
+			return &intrinsicFn{name: name, fn: func(ex *exec, fr *frame, args []value) value {
+				res := sig.Results()
+				switch res.Len() {
+				case 0:
+					return nil
+				case 1:
+					return ex.opaqueResult(res.At(0).Type())
+				}
+				t := make(tuple, res.Len())
+				for i := range t {
+					t[i] = ex.opaqueResult(res.At(i).Type())
+				}
+				return t
+			}}
 		}
 		panic(unsupported("method %s on stubbed object", name))
 	}
@@ -514,6 +533,8 @@ func (p *Program) meta(fn *ssa.Function) *fnMeta {
 	m.module = strings.HasPrefix(pkgPath, p.modPrefix)
 	if in, ok := p.intrinsics[m.name]; ok && fn.Parent() == nil {
 		m.intr = in
+	} else if opaquePkg(pkgPath) {
+		m.intr = opaqueCall
 	} else if fn.Synthetic != "" && base.Pkg == nil && fn.Blocks != nil && !strings.HasPrefix(fn.Synthetic, "instance of") {
 		// wrappers, bound-method closures, thunks
 		m.interpret = true
@@ -631,6 +652,9 @@ func (ex *exec) runFrame(fr *frame) {
 		}
 		r := recover()
 		if ea, ok := r.(engineAbort); ok {
+			if debugStack && (ea.kind == "unsupported" || ea.kind == "incomplete") && strings.Count(ea.reason, " <- ") < 12 {
+				ea.reason += " <- " + fr.fn.String()
+			}
 			panic(ea)
 		}
 		if _, ok := r.(internalError); ok {
